@@ -360,6 +360,9 @@ def gen_truth(rng: random.Random, gs: dict, cls: str, modes: int, resolvable: bo
         for (lo, hi, n, per), h in zip(axes, hs):
             if per:
                 pos.append(rng.uniform(lo, hi))
+            elif not resolvable and rng.random() < 0.12:
+                # centre outside a non-periodic face: the image shows a cut droplet, the fit ends outside the box
+                pos.append(lo - rng.uniform(0.1, 1.5) * h if rng.random() < 0.5 else hi + rng.uniform(0.1, 1.5) * h)
             else:
                 pad = (radius + 2 * width + 2 * h) if resolvable else min(radius, (hi - lo) / 3)
                 a, b = lo + pad, hi - pad
@@ -372,6 +375,9 @@ def gen_truth(rng: random.Random, gs: dict, cls: str, modes: int, resolvable: bo
         lo, hi, n, per = axes[1]
         if per:
             z = rng.uniform(lo, hi)
+        elif not resolvable and rng.random() < 0.12:
+            z = lo - rng.uniform(0.1, 1.5) * hs[1] if rng.random() < 0.5 else hi + rng.uniform(0.1, 1.5) * hs[1]
+            pad = 0.0
         else:
             pad = (radius + 2 * width + 2 * hs[1]) if resolvable else min(radius, (hi - lo) / 3)
             z = rng.uniform(lo + pad, hi - pad) if lo + pad < hi - pad else (lo + hi) / 2
@@ -564,6 +570,8 @@ def known_entry(prop: str, failure: str, **attrs):
 # C04: the property text over one recorded refinement
 # =========================================================================================
 COST_RTOL = 1e-9   # the two deviations are sums of <= 4096 squares evaluated twice in binary64 (<= 2^-40 relative)
+COST_ATOL = 1e-24  # times max(1, vrng^2): (p - lo) % L + lo may move a coordinate by one ulp, each of <= 4096 residuals then
+                   # changes by <= ~1e-15 * |vrng|, the sum of squares by <= 4096 * 1e-30 * vrng^2
 FIXED_TOL = 1e-6   # "unchanged up to solver tolerance" (property text; default ftol = xtol = gtol = 1e-8)
 
 
@@ -656,7 +664,7 @@ def c04_oracle(case: dict, rec: dict) -> list[dict]:
         fail("invalid result", f"the returned droplet {out} cannot be rendered: {type(e).__name__}: {e}")
         return fails
     rec["dev0"], rec["dev1"] = dev0, dev1
-    if not dev1 <= dev0 * (1 + COST_RTOL) + 1e-300:
+    if not dev1 <= dev0 * (1 + COST_RTOL) + COST_ATOL * max(1.0, vrng1 * vrng1):
         fail("cost increased", f"squared deviation over the fitted region grew from {dev0!r} to {dev1!r}")
     # the region / intensity levels the implementation used are the documented ones
     if rec["dilations"]:
